@@ -4,18 +4,26 @@ package goverter
 
 // Contracts for the root package (comment-only; checked by /verif/engine).
 
+// every output file: create the directory (0755), then write the whole content (0644)
 //@ func writeFiles
 //@   props C09 C15 C17
+//@   propagates
 //@   maprange 1 unordered-result paths
+//@   at@C15 call os.MkdirAll#* assert arg0 == filepath.Dir(path) && arg1 == 0o755
+//@   at@C15 call os.WriteFile#* assert arg0 == path && same(arg1, files[path]) && arg2 == 0o644
 
 // ---- C17: generate everything in memory, write only after every converter succeeded ----
 //@ func GenerateConverters
 //@   props C17 C15
+//@   propagates
 //@   requires@C13 c != nil
-//@   ensures true
 //@   at call writeFiles#1 assert err == nil
 
+// both package loads get the same build tags; the generator gets the output build constraint
 //@ func generateConvertersRaw
 //@   props C17 C16
+//@   propagates
 //@   requires@C13 c != nil
-//@   ensures true
+//@   at@C16 call comments.ParseDocs#1 assert arg0.BuildTags == c.BuildTags && same(arg0.PackagePattern, c.PackagePatterns) && arg0.WorkingDir == c.WorkingDir
+//@   at@C16 call config.Parse#1 assert arg0.BuildTags == c.BuildTags && arg0.WorkDir == c.WorkingDir
+//@   at@C16 call generator.Generate#1 assert arg1.BuildConstraint == c.OutputBuildConstraint
